@@ -96,7 +96,8 @@ def r48(F):
             continue
         if field in MEMO:
             spec = MEMO[field]
-            bad_mut = [c for c in mut_callees if c not in spec["mut"]]
+            # any method of the cache type may be the mutator of the op cache: which of them insert, and how, is decided by R48m
+            bad_mut = [c for c in mut_callees if c not in spec["mut"] and not (field == "op_cache" and c.startswith("ucglib::build::opcode::cache::Ops::"))]
             ok = not assigns and not bad_mut
             if interior:
                 bad_ro = [c for c in ro_callees if c not in spec["ro"]]
@@ -129,33 +130,48 @@ def r48m(F):
                    "op cache: insert only on the vacant edge after the computation succeeded; value cache: updated only on "
                    "the miss path after a successful run, keyed like the lookup; shape cache: inserted only after the "
                    "imported file checked without errors; none of them is ever shrunk", floor=7)
-    # --- op cache
-    fn = F.fn("ucglib::build::opcode::cache::Entry::get_pointer_or_else")
-    ins = [b for b, t in fn.calls() if callee(t).endswith("VacantEntry::insert") or callee(t).endswith("::insert")]
-    need(ins, "no insert in Entry::get_pointer_or_else")
-    sw = [(b, t) for b, t in enumerate(fn.term(i) for i in range(len(fn.blocks))) if t["k"] == "switch" and (t.get("enum") or "").endswith("btree::map::entry::Entry")]
-    need(sw, "no switch on btree_map::Entry")
-    sb, st = sw[0]
-    vac = cfg.switch_edge(st, variant="Vacant")
-    occ = cfg.switch_edge(st, variant="Occupied")
-    ok = all(cfg.dominates(fn, vac, b) for b in ins) and not (cfg.reachable(fn, occ, removed={vac}) & set(ins) and not all(cfg.dominates(fn, vac, b) for b in ins))
-    r.inst("op_cache:insert-on-vacant", fn.where(ins[0]), ok, "insert only on the Vacant edge" if ok else "op cache overwritten on the Occupied edge")
-    # computation f() precedes insert and its Err edge does not reach insert
-    calls_f = [b for b, t in fn.calls() if "FnOnce" in callee(t) or "call_once" in callee(t)]
-    need(calls_f, "closure call not found in get_pointer_or_else")
-    fb = calls_f[0]
-    br = [b for b, t in fn.calls() if callee(t).endswith("Try>::branch") and b in cfg.reachable(fn, fb)]
-    need(br, "no `?` after the computation")
-    bsw = util.enum_switches(fn, fn.term(br[0])["dest"]["l"])
-    need(bsw, "`?` result not switched")
-    brk = cfg.switch_edge(bsw[0][1], variant="Break")
-    ok = not (cfg.reachable(fn, brk) & set(ins)) and all(cfg.dominates(fn, fb, b) for b in ins)
-    r.inst("op_cache:failures-not-cached", fn.where(fb), ok, "a failed parse/check/translate is not cached" if ok else "the op cache is written on the failure path")
+    # --- op cache: every function of the cache module that inserts (the Entry API today; get + insert would do as well)
+    CACHE = "ucglib::build::opcode::cache::"
+    inserters = [f for n, f in sorted(F.fns.items()) if n.startswith(CACHE) and not f.derived and
+                 any(callee(t).endswith(("VacantEntry::insert", "BTreeMap::insert", "VacantEntry::insert_entry")) for b, t in f.calls())]
+    need(inserters, "no function of the op cache module inserts into the map")
+    for fn in inserters:
+        o = Origins(fn)
+        ins = [b for b, t in fn.calls() if callee(t).endswith(("VacantEntry::insert", "BTreeMap::insert", "VacantEntry::insert_entry"))]
+        # the edges on which the key is known to be absent
+        miss = []
+        for b in range(len(fn.blocks)):
+            t = fn.term(b)
+            if t["k"] != "switch" or fn.is_cleanup(b):
+                continue
+            if (t.get("enum") or "").endswith("btree::map::entry::Entry"):
+                miss.append(cfg.switch_edge(t, variant="Vacant"))
+            elif t.get("enum") == "core::option::Option" and "src" in t:
+                labs = o.at(t["src"], b)
+                if any(c.endswith(("BTreeMap::get", "BTreeMap::get_mut")) for c in calls_in(labs)):
+                    miss.append(cfg.switch_edge(t, variant="None"))
+        for b, t in fn.calls():
+            if callee(t).endswith("BTreeMap::contains_key"):
+                for sb, ft, tt in util.bool_switches(fn, t["dest"]["l"]):
+                    miss.append(ft)
+        need(miss, "%s: no test whether the key is cached already (Entry / get / contains_key)" % fn.name)
+        ok = all(any(cfg.dominates(fn, m, b) for m in miss) for b in ins)
+        r.inst("op_cache:insert-on-vacant", fn.where(ins[0]), ok, "insert only where the key was found absent" if ok else "op cache overwritten when the key is present")
+        # computation f() precedes insert and its Err edge does not reach insert
+        calls_f = [b for b, t in fn.calls() if "FnOnce" in callee(t) or "call_once" in callee(t)]
+        need(calls_f, "closure call not found in %s" % fn.name)
+        fb = calls_f[0]
+        t0 = fn.term(fb)
+        need(not t0["dest"]["p"] and t0.get("t") is not None, "%s: result of the computation stored in a projected place" % fn.name)
+        on_err = cfg.reachable_ps(fn, t0["t"], init={(t0["dest"]["l"], "Err")})
+        ok = not (on_err & set(ins)) and all(cfg.dominates(fn, fb, b) for b in ins)
+        r.inst("op_cache:failures-not-cached", fn.where(fb), ok, "a failed parse/check/translate is not cached" if ok else "the op cache is written on the failure path")
     # Ops.ops never shrunk
     acc = field_accesses(F, "ucglib::build::opcode::cache::Ops", "ops")
     mc = sorted({c for a in acc if a[0] == "mutref" for c, _ in a[3]})
-    ok = all(c.endswith("BTreeMap::entry") for c in mc) and not [a for a in acc if a[0] == "assign"]
-    r.inst("op_cache:never-shrunk", "src/build/opcode/cache.rs", ok, "Ops.ops only reached through BTreeMap::entry" if ok else "Ops.ops mutated by %s" % mc)
+    GROW = ("BTreeMap::entry", "BTreeMap::insert", "BTreeMap::get", "BTreeMap::get_mut", "BTreeMap::contains_key")
+    ok = all(c.endswith(GROW) for c in mc) and not [a for a in acc if a[0] == "assign"]
+    r.inst("op_cache:never-shrunk", "src/build/opcode/cache.rs", ok, "Ops.ops only reached through %s" % ", ".join(sorted({c.split("::")[-1] for c in mc})) if ok else "Ops.ops mutated by %s" % mc)
     # --- value cache
     upd = "ucglib::build::opcode::environment::Environment::update_path_val"
     getc = "ucglib::build::opcode::environment::Environment::get_cached_path_val"
